@@ -38,6 +38,13 @@ func pagingWalks(r *core.Rng, pg *prog.Program, buckets, prefixes []string, n in
 					v.Ops = append(v.Ops, prog.Op{K: "psearch", B: b, Key: pre, Re: re, I: 0, J: -1})
 				}
 			}
+			if r.Bool(0.3) && len(v.Ops) > 1 {
+				// time passes while the paging transaction is open: a key may
+				// expire between two of its scans
+				pos := 1 + r.Intn(len(v.Ops)-1)
+				adv := prog.Op{K: "adv", TS: int64(r.Range(1, 3))}
+				v.Ops = append(v.Ops[:pos:pos], append([]prog.Op{adv}, v.Ops[pos:]...)...)
+			}
 			pg.Steps = append(pg.Steps, v)
 		}
 	}
